@@ -69,9 +69,12 @@ inline double readme_level_energy(const std::string & iso, int lev)
     std::string cur;
     for (auto & l : readme_section("List of daughter nucleus excited states")) {
       if (l.compare(0, 2, "* ") == 0) { cur = first_literal(l); continue; }
-      size_t b = l.find('{'); if (cur.empty() || b == std::string::npos) continue;
-      size_t a = l.find_first_not_of(" "); int k = atoi(l.c_str() + a);
-      double e = atof(l.c_str() + b + 1);
+      // "  4. 2+ (3) {2.080 MeV}" -- the README has a few "(2.080 MeV}" typos: take the number in front of "MeV"
+      size_t mv = l.find("MeV"); if (cur.empty() || mv == std::string::npos) continue;
+      size_t b = mv; while (b > 0 && (isdigit((unsigned char)l[b - 1]) || l[b - 1] == '.' || l[b - 1] == ' ')) b--;
+      size_t a = l.find_first_not_of(" "); if (a == std::string::npos || !isdigit((unsigned char)l[a])) continue;
+      int k = atoi(l.c_str() + a);
+      double e = atof(l.c_str() + b);
       auto & v = tab[cur]; if ((int)v.size() <= k) v.resize(k + 1, -1.0); v[k] = e;
     }
   }
